@@ -23,8 +23,9 @@ Log == ndJsonDeserialize("trace.ndjson")
 VARIABLES l, viol, drift, sig, ref,
           fold,   \* left fold of the logged watcher notifications (C14)
           rt,     \* the syncer/routing-table specification folded over the logged notifications
-          obsrt   \* pending set and routing table read from the real syncer + cluster.State (C04)
-tvars == <<vars, l, viol, drift, sig, ref, fold, rt, obsrt>>
+          obsrt,  \* pending set and routing table read from the real syncer + cluster.State (C04)
+          dropped \* pairs <<o, n>> with the signature of known finding F5 (n left while pending at o)
+tvars == <<vars, l, viol, drift, sig, ref, fold, rt, obsrt, dropped>>
 
 -----------------------------------------------------------------------------
 (* JSON -> spec values *)
@@ -224,13 +225,13 @@ TraceInit ==
   /\ l = 1
   /\ viol = {}
   /\ drift = 0
-  /\ sig = [f2 |-> 0, f4 |-> 0]
+  /\ sig = [f2 |-> 0, f4 |-> 0, f5 |-> 0]
   /\ st = InitSt /\ armq = EmptyQ /\ susp = EmptyS
   /\ alive = [n \in Node |-> TRUE]
   /\ net = <<>> /\ evts = <<>>
   /\ written = [n \in Node |-> {}]
   /\ expiredBy = EmptyS
-  /\ f4taint = {} /\ relearned = {}
+  /\ f4taint = {} /\ relearned = {} /\ dropped = {}
   /\ ref = [n \in Node |-> <<>>]
   /\ obs = 0
   /\ fold = [o \in Node |-> EmptyFold]
@@ -286,11 +287,18 @@ TraceNext ==
         /\ fold' = FoldAll(IF reset THEN [o \in Node |-> EmptyFold] ELSE fold, evts')
         /\ rt' = SyncAll(IF reset THEN [o \in Node |-> EmptyRT] ELSE rt, evts')
         /\ obsrt' = ObsRTOf(e.tables, rt')
+        /\ dropped' = IF reset THEN {}
+                      ELSE LET base == IF e.op = "RemoveExpired"
+                                       THEN {p \in dropped : ~(p[1] = e.a /\ p[2] \in Range(e.ord))}
+                                       ELSE dropped
+                           from == IF reset THEN [o \in Node |-> EmptyRT] ELSE obsrt
+                      IN base \cup UNION {{<<o, n>> : n \in LeftWhilePending(from[o], o, evts')} : o \in Node}
         /\ viol' = StepViolations(e)
         /\ drift' = drift + (IF reset \/ (CoreOK(e) /\ EvOK(e)) THEN 0 ELSE 1)
                           + (IF obsrt' = rt' THEN 0 ELSE 1)
         /\ sig' = [f2 |-> sig.f2 + Cardinality(relearned' \ relearned),
-                   f4 |-> sig.f4 + Cardinality(f4taint' \ f4taint)]
+                   f4 |-> sig.f4 + Cardinality(f4taint' \ f4taint),
+                   f5 |-> sig.f5 + Cardinality(dropped' \ dropped)]
 
 TraceSpec == TraceInit /\ [][TraceNext]_tvars
 
@@ -300,7 +308,9 @@ NoStepViolation == viol = {}
 OnlyRealNodes == \A o \in Node : DOMAIN st[o] \subseteq Node
 MatchesRef == MatchesRefOf(ref)
 FoldEqualsView == FoldEqualsViewOf(fold)
-CaughtUpMirrors == CaughtUpMirrorsOf(obsrt)
+CaughtUpMirrors == CaughtUpMirrorsExcOf(obsrt, dropped)
+\* without excusing known finding F5 (used to demonstrate it on the real code)
+CaughtUpMirrorsNoF5 == CaughtUpMirrorsOf(obsrt)
 CaughtUpMirrorsAll == CaughtUpMirrorsStrictOf(obsrt)
 StatusTracks == StatusTracksOf(obsrt)
 NoOrphans == NoOrphansOf(obsrt)
@@ -312,7 +322,7 @@ Consumed ==
 
 \* reported, never a verdict: number of steps that are not spec steps, and how
 \* often the known-finding signatures fired
-DriftReport == l <= Len(Log) \/ PrintT(<<"TRACE-COUNTERS", drift, sig.f2, sig.f4>>)
+DriftReport == l <= Len(Log) \/ PrintT(<<"TRACE-COUNTERS", drift, sig.f2, sig.f4, sig.f5>>)
 \* development aid: stop at the first step that is not a spec step
 NoDriftDbg == drift = 0
 
